@@ -313,12 +313,13 @@ public:
     numNodes = graph.size();
     numEdges = graph.sizeEdges();
     if (UseNumaAlloc) {
-      data.allocateLocal(sizeof(NodeInfo) * numNodes * 2 +
+      // constructNodesFrom places node id after 2 * (id + 1) NodeInfo slots
+      data.allocateLocal(sizeof(NodeInfo) * (numNodes + 1) * 2 +
                          sizeof(EdgeInfo) * numEdges);
       nodes.allocateLocal(numNodes);
       this->outOfLineAllocateLocal(numNodes);
     } else {
-      data.allocateInterleaved(sizeof(NodeInfo) * numNodes * 2 +
+      data.allocateInterleaved(sizeof(NodeInfo) * (numNodes + 1) * 2 +
                                sizeof(EdgeInfo) * numEdges);
       nodes.allocateInterleaved(numNodes);
       this->outOfLineAllocateInterleaved(numNodes);
